@@ -42,7 +42,7 @@ _LOOP = {
     "C02": (["Redress.Props.C02"], ["Redress/Audit/C02.lean"]),
     "C03": (["Redress.Props.C03"], ["Redress/Audit/C03.lean"]),
     "C04": (["Redress.Props.C04"], ["Redress/Audit/C04.lean"]),
-    "C05": (["Redress.Props.C05"], ["Redress/Audit/C05.lean"]),
+    "C05": (["Redress.Props.C05", "Redress.Props.C05Sig"], ["Redress/Audit/C05.lean", "Redress/Audit/C05Sig.lean"]),
     "C08": (["Redress.Props.C08"], ["Redress/Audit/C08.lean"]),
     "C09": (["Redress.Props.C09"], ["Redress/Audit/C09.lean"]),
     "C11": (["Redress.Props.C11"], ["Redress/Audit/C11.lean"]),
@@ -59,7 +59,7 @@ _LOOP_PARTIAL = {
 }
 for pid, (mods, audits) in _LOOP.items():
     if _have(*audits):
-        fams = ["loop", "interleave"] if pid in ("C08", "C09") else ["loop"]
+        fams = ["loop", "interleave"] if pid in ("C08", "C09") else ["loop", "sigs"] if pid == "C05" else ["loop"]
         _reg(pid, mods, audits, fams, LOOP_NOTE, partial=_LOOP_PARTIAL.get(pid, ""))
 
 # ---------------------------------------------------------------- components
